@@ -260,7 +260,12 @@ func (s *Star) SQL() string {
 }
 
 func (s *DotStar) SQL() string {
-	return s.Expr.SQL() + ".*" + sqlOpt(" ", s.Except, "") + sqlOpt(" ", s.Replace, "")
+	e := s.Expr.SQL()
+	if _, ok := s.Expr.(*IntLiteral); ok {
+		// "1.*" would be lexed as the floating point literal "1." followed by "*".
+		e += " "
+	}
+	return e + ".*" + sqlOpt(" ", s.Except, "") + sqlOpt(" ", s.Replace, "")
 }
 
 func (a *Alias) SQL() string {
